@@ -10,6 +10,7 @@ PROP = {
         "e2e rig harness/cmd/c06/sc: scripted raw-frame peer over net.Pipe (public WithDialer/WithListener), one sequenced recorder; call -> frame attribution by a unique token in the body; log conventions stated in SendCoreMon.v",
     ],
     "assumptions": [
+        "translator: hsms.IsValidSType and the SType / reject-reason / status / state constants are regenerated from /repo into Gen.v and bridged to the model (Gen/BridgeSendCore.v)",
         "atomicity of the LTS steps as read from the code (DESIGN.md Appendix A.2): one read of the supervisor state per gate, registry Store/Load/Delete linearizable, a cap-1 channel per waiter, a sequential recv goroutine",
         "abstractions that only add behaviours: writeMu not modelled, unbounded async queue, lifecycle actions enabled whenever structurally possible",
         "defaults only: session-id validation, decode-error handlers, autoS9F9 and channel handlers are off in the model",
